@@ -192,6 +192,23 @@ CHECKS = {
             {"run": "^TestC13DumpRestore$", "n": {"quick": 5000, "thorough": 50000}},
         ],
     },
+    "C18": {
+        "level": "exploration",
+        "technique": "model-based accounting: generated sequential histories and generated call-out schedules with a counting StatsTracker compared with the harness's own operation log",
+        "design_ref": "DESIGN.md section 6 C18",
+        "text": "(a) C07-style generated histories on every backend with a counting tracker: each of hit, miss, expired, write, "
+                "delete must equal the reference model's count. (b) C02-style generated schedules with faults and trackers on "
+                "the frontend, its failure cache and the real backend: build, failed, refreshed, failure-cache writes and the "
+                "real backend's read/write/delete totals must equal the counts in the wrapper's log at quiescence. "
+                "(c) free-running concurrent workloads: totals vs. per-goroutine operation counts. Sampled search.",
+        "note": "cache_refreshed is specified as 'stale re-stores': the oracle accepts any count between the successful and the "
+                "attempted re-stores (they differ only when the re-store's backend write was made to fail).",
+        "assumptions": ["tracker callbacks never block (rule R1)"],
+        "jobs": [
+            {"run": "^TestC18Backend$", "n": {"quick": 10000, "thorough": 100000}},
+            {"run": "^TestC18Failover$", "n": {"quick": 6000, "thorough": 40000}},
+        ],
+    },
 }
 
 HOOK_COMMITS = ["a54259f"]
